@@ -28,7 +28,7 @@ NATIVE = {
     "C10": [("tables", [], [])],
     "C14": [("eval", [], [])],
     "C06": [("search-interrupt", ["--depth=3", "--maxnodes=120"], ["--depth=3", "--maxnodes=600"])],
-    "C03": [("bestmove", [], [])],
+    "C03": [("bestmove", [], []), ("uci-session", ["--positions=40"], ["--positions=300"])],
     "C07": [("overrun", [], [])],
     "C05": [("minimax", ["--walks=300", "--depth=3"], ["--walks=3000", "--depth=3"])],
     "C08": [("mate-in-one", ["--walks=15"], ["--walks=300"])],
